@@ -65,10 +65,18 @@ pub fn run(ctx: &Ctx) -> Report {
     } else {
         let shards = 16;
         let (mut l, ends) = run_sharded(ctx, shards, 1, None, &[], "native");
+        let mut dead_analysed = 0u32;
         for e in ends {
             if e.ok {
                 continue;
             }
+            if !extra_violations.is_empty() && dead_analysed >= 2 {
+                // a crash / hang is already confirmed by an isolated re-run: the other dead workers
+                // are not analysed one by one (each hanging case costs a minute)
+                let _ = std::fs::remove_file(&e.log_path);
+                continue;
+            }
+            dead_analysed += 1;
             // a worker died: which cases was it running?
             let started: Vec<u64> = std::fs::read_to_string(&e.log_path)
                 .unwrap_or_default()
